@@ -21,7 +21,10 @@ CONSTANTS NDays,      \* days are 1..NDays, consecutive calendar days
           Pool,       \* sequence of report shapes [id, big, carries]
           Charts,     \* the configuration (set of chart descriptors)
           MaxUp,      \* bound on uploads in a behaviour
-          MaxSteps    \* bound on merge/chart requests in a behaviour
+          MaxSteps,   \* bound on merge/chart requests in a behaviour
+          Weekly,     \* TRUE: days are merged all at once (the daily task queue: "merge the
+                      \* previous 7 days"), FALSE: one merge request at a time
+          ChartLens   \* the range lengths (end - start) that are charted (daily: 0, weekly: 6, ...)
 
 ASSUME WellFormed(Charts)
 (* sorting the keys by rank, from whatever order they come in, gives the    *)
@@ -29,7 +32,7 @@ ASSUME WellFormed(Charts)
 ASSUME SortedOrder(Charts) = ListingOrder(Charts)
 
 Days == 1..NDays
-Ranges == {r \in Days \X Days : r[1] <= r[2]}
+Ranges == {r \in Days \X Days : r[1] <= r[2] /\ (r[2] - r[1]) \in ChartLens}
 PoolIx == 1..Len(Pool)
 NoMerge == [ok |-> FALSE, lines |-> <<>>]
 NoChart == [num |-> -1, val |-> [t \in Triples(Charts) |-> 0]]
@@ -63,12 +66,27 @@ Orders(S) == {f \in [1..Cardinality(S) -> S] : \A i, j \in 1..Cardinality(S) : i
 
 (* merge: one line per object stored for the day, in listing order *)
 Merge(d) ==
+    /\ ~Weekly
     /\ nSteps < MaxSteps
     /\ \E ord \in Orders(Stored(d)) :
           mg' = [mg EXCEPT ![d] = [ok |-> TRUE, lines |-> [k \in 1..Cardinality(Stored(d)) |-> up[d][ord[k]]]]]
     /\ resp' = [code |-> 200, n |-> Cardinality(Stored(d))]
     /\ out' = NoChart
     /\ last' = [op |-> "merge", a |-> d, b |-> 0, c |-> 0]
+    /\ nSteps' = nSteps + 1
+    /\ UNCHANGED <<up, ch, nUp, listing>>
+
+(* the task queue merges every day; each day lists its objects in the same  *)
+(* (arbitrary) priority order of the object names                           *)
+InOrder(pri, S) == SelectSeq(pri, LAMBDA o : o \in S)
+MergeAll ==
+    /\ Weekly
+    /\ nSteps < MaxSteps
+    /\ \E pri \in Orders(Objs) :
+          mg' = [d \in Days |-> [ok |-> TRUE, lines |-> [k \in 1..Cardinality(Stored(d)) |-> up[d][InOrder(pri, Stored(d))[k]]]]]
+    /\ resp' = [code |-> 200, n |-> 0]
+    /\ out' = NoChart
+    /\ last' = [op |-> "mergeall", a |-> 0, b |-> 0, c |-> 0]
     /\ nSteps' = nSteps + 1
     /\ UNCHANGED <<up, ch, nUp, listing>>
 
@@ -93,6 +111,7 @@ Chart(s, e) ==
 
 Next == \/ \E d \in Days, o \in Objs, i \in PoolIx : Upload(d, o, i)
         \/ \E d \in Days : Merge(d)
+        \/ MergeAll
         \/ \E r \in Ranges : Chart(r[1], r[2])
 Spec == Init /\ [][Next]_vars
 
@@ -108,6 +127,11 @@ MergeOnePerStored ==
          /\ Len(mg'[d].lines) = Cardinality(Stored(d))
          /\ \A i \in PoolIx : Occ(mg'[d].lines, i) = Cardinality({o \in Objs : up[d][o] = i})
          /\ \A x \in Days \ {d} : mg'[x] = mg[x]]_vars
+MergeAllOnePerStored ==
+    [][last'.op = "mergeall" =>
+         \A d \in Days : /\ mg'[d].ok
+                          /\ Len(mg'[d].lines) = Cardinality(Stored(d))
+                          /\ \A i \in PoolIx : Occ(mg'[d].lines, i) = Cardinality({o \in Objs : up[d][o] = i})]_vars
 
 (* NumReports equals the count of merged reports of the range and each      *)
 (* partition value is the number of distinct IDs carrying the bucket: the   *)
